@@ -15,13 +15,13 @@ claim("C14",
 
 claim("C13",
       "panic-obligation discharge on SSA (non-nil map dataflow with verified accessor summaries and static folding of type assertions) + table/stamp agreement + return-shape check (static analysis)",
-      "Decides, for every function of the upgrade package including each generic instantiation, that no map store can hit a nil map, no possibly-nil map value enters the document, no single-result type assertion / explicit panic / unchecked index exists, that every error return of the upgrade hands back the original bytes, and that the step table is complete, indexed only after version validation, and that slot i stamps version i+1 on every successful path. "
-      "These are the structural necessary conditions of 'never panics', 'fails leaving the content unchanged' and 'stamped with the current schema version' over all YAML inputs; path independence, idempotence, preservation of unrelated settings and loader acceptance are value-level and not decided.",
+      "Decides, for every function of the upgrade package including each generic instantiation, that no map store can hit a nil map, no possibly-nil map value enters the document, no single-result type assertion / explicit panic / unchecked index exists, that every error return of the upgrade hands back the original bytes, and that the step table is complete, indexed only after version validation, that slot i stamps version i+1 on every successful path; and that no step reads, through a typed accessor or assertion, a key under which an earlier step stored a Go value whose type YAML would not give back (the type part of path independence: one run vs. several partial runs). "
+      "These are the structural necessary conditions of 'never panics', 'fails leaving the content unchanged', 'stamped with the current schema version' and (types only) 'independent of where the upgrade is split' over all YAML inputs; the value part of path independence, idempotence, preservation of unrelated settings and loader acceptance are value-level and not decided.",
       "DESIGN.md §5 C13")
 
 claim("C10",
       "persist-after-mutate must-reach analysis with caller propagation + typestate (provenance) of registered leases + sibling agreement of table writers + validation path guards on SSA (static analysis)",
-      "Decides that every instruction that changes the DHCPv4 lease table or a registered lease is followed, on every path to a successful return of its outermost entry point, by the database-store notification (so the file lists the leases in memory), that a lease obtained from the allocator or the table is never registered a second time (no duplicate entries in the list, the API or the file), that the lease list, both indexes and the pool-offset set are always changed together, and that static-lease insertion is reached only after the validation calls succeeded. "
+      "Decides that every instruction that changes the DHCPv4 lease table or a registered lease is followed, on every path to a successful return of its outermost entry point, by the database-store notification (so the file lists the leases in memory), that a lease obtained from the allocator or the table is never registered a second time (no duplicate entries in the list, the API or the file), that the lease list, both indexes and the pool-offset set are always changed together, that static-lease insertion is reached only after the validation calls succeeded, that the function that makes room for a new lease can remove more than one lease per call (a lease can conflict with one lease by hardware address and another by IP) and callers register only after it, and that a hostname change drops the old name from the hostname index and indexes the new one. "
       "These are structural necessary conditions of 'the lease database lists exactly the leases in memory, each once'; address/client uniqueness over message histories, pool exhaustion, expiry and matching logic inside the mutators are value-level and not decided.",
       "DESIGN.md §5 C10")
 
@@ -39,8 +39,8 @@ claim("C17",
 
 claim("C15",
       "CFG path guards, reaching-store resolution of named results, who-may-write enumeration of list metadata (static analysis)",
-      "Decides that the downloaded file can replace a list only on the success edge, that the success flag is false or implies err == nil for the very error being returned and no transfer/parse error is overwritten with nil before that decision, that the parser writes only into the pending file, that an unchanged checksum never triggers a rewrite, that rule count / checksum are written only after a successful replace, from parsing the stored file, as a rollback, or when copying back a list that really was updated with the same ID, and that only a 200 response without transport error is parsed. "
-      "These are the structural conditions of 'a failed refresh changes nothing'; the parser's normal form being a fixed point, HTML/binary detection and the effect of a fault at each byte offset are value-level and not decided.",
+      "Decides that the downloaded file can replace a list only on the success edge, that the success flag is false or implies err == nil for the very error being returned and no transfer/parse error is overwritten with nil before that decision, that the parser writes only into the pending file, that an unchanged checksum never triggers a rewrite, that rule count / checksum are written only after a successful replace, from parsing the stored file, as a rollback, or when copying back a list that really was updated with the same ID, that only a 200 response without transport error is parsed; and, for the parser, that the HTML test is applied to the trimmed line for as long as nothing was written and fails the parse, that exactly the trimmed line plus newline is written, only for lines classified as rules from the trimmed line alone, with count and checksum advanced once over those same bytes (so re-parsing the stored form reproduces them), and that parsing stops at the first line error. "
+      "These are the structural conditions of 'a failed refresh changes nothing' and of the stored normal form being stable; what counts as an HTML/binary line and the effect of a fault at each byte offset are value-level and not decided.",
       "DESIGN.md §5 C15")
 
 claim("C16",
@@ -75,7 +75,7 @@ claim("C08",
 
 claim("C03",
       "CFG edge guards and phi-leaf classification of the access decision on SSA, static-callee reachability from the pre-request hook, asserted shape of the pinned dnsproxy hook order (static analysis)",
-      "Decides that the access check is installed as the proxy's pre-request hook and runs before any handler, that a request is admitted only with a negative client verdict and (single question) a negative blocked-host verdict and otherwise leaves through preBlockedResponse, that nothing reachable from the hook logs, counts or resolves, that UDP and DNSCrypt get no packet back while every other transport gets REFUSED, that allow-list mode is derived from all three allowed collections, that allowed/disallowed collections are consulted only in their mode, that 'blocked' is produced only under the allow-list rule (both excluded) or the block-list rule (one excluded), and that the three parts of the decision read one snapshot under the server lock. "
+      "Decides that the access check is installed as the proxy's pre-request hook and runs before any handler, that a request is admitted only with a negative client verdict and (single question) a negative blocked-host verdict and otherwise leaves through preBlockedResponse, that nothing reachable from the hook logs, counts or resolves, that UDP and DNSCrypt get no packet back while every other transport gets REFUSED, that allow-list mode is derived from all three allowed collections, that allowed/disallowed collections are consulted only in their mode, that 'blocked' is produced only under the allow-list rule (both excluded) or the block-list rule (one excluded), that the three parts of the decision read one snapshot under the server lock, that the list builder stores every accepted entry (address, prefix or ClientID) and both lists are built from their configured slices, and that the address check tests every stored network. "
       "CIDR containment, zones, ClientID case and blocked-host pattern semantics are value-level and not decided.",
       "DESIGN.md §5 C03")
 
@@ -91,15 +91,15 @@ claim("C02",
       "DESIGN.md §5 C02")
 
 claim("C06",
-      "loop-variant recognition (visited-set idiom) from SSA loop structure and value identity, provenance of appended addresses, who-may-write enumeration, must-pass ordering for question save/restore (static analysis)",
-      "Decides termination of rewrite evaluation by a syntactic ranking argument (every iteration of the CNAME chase adds the very host it continues with to a set created outside the loop, a seen host leaves the loop, the table is fixed under the read lock, helper loops are counted), that answered addresses come only from the IP field of entries found for the finally resolved host with the requested type, that the original question is saved before renaming and restored with the CNAME prepended, that a table match yields the Rewritten reason which ends host checking, and that entries enter the table only normalised and are never edited in place. "
-      "The precedence relation itself (exact over wildcard, most specific wildcard, CNAME over address) is comparator arithmetic and not decided.",
+      "loop-variant recognition (visited-set idiom) from SSA loop structure and value identity, abstract evaluation of the precedence comparator over a finite domain, provenance of appended addresses, who-may-write enumeration, must-pass ordering for question save/restore (static analysis)",
+      "Decides termination of rewrite evaluation by a syntactic ranking argument (every iteration of the CNAME chase adds the very host it continues with to a set created outside the loop, a seen host leaves the loop, the table is fixed under the read lock, helper loops are counted), that answered addresses come only from the IP field of entries found for the finally resolved host with the requested type, that the original question is saved before renaming and restored with the CNAME prepended, that a table match yields the Rewritten reason which ends host checking, that entries enter the table only normalised and are never edited in place; and that the comparator the matched entries are sorted with, evaluated over the finite domain {is-CNAME} x {is-wildcard} x {sign of the pattern-length difference}, puts CNAME before address entries, exact before wildcard and the longer wildcard first, with the sorted list cut at the first wildcard keeping at least one entry. "
+      "Wildcard (suffix) matching itself and agreement with the documentation examples are value-level and not decided.",
       "DESIGN.md §5 C06")
 
 claim("C04",
-      "call-ordering and edge guards on SSA, field-set agreement between the index's add/remove siblings, who-may-mutate enumeration, lock dominance over static callers (static analysis)",
-      "Decides that lookups ask ClientID, then exact address, then subnets, then the DHCP MAC, each only after the previous failed; that own settings / own blocked services are applied only on their opt-out edges from the client's corresponding fields; that index changes are reached only after the clash checks returned nil inside one hold of the storage mutex, with an update removing the stored client's entries before adding the new ones; that add writes and remove deletes exactly all maps of the index, nobody else mutates them, and every identifier map is covered by a clash check and a finder; and that every index access happens under the storage mutex. "
-      "The comparator that makes 'most specific CIDR' win and consistency over arbitrary operation histories are value/history-level and not decided.",
+      "call-ordering and edge guards on SSA, abstract evaluation of the subnet comparator over a finite sign domain, field-set agreement between the index's add/remove siblings, who-may-mutate enumeration, lock dominance over static callers (static analysis)",
+      "Decides that lookups ask ClientID, then exact address, then subnets, then the DHCP MAC, each only after the previous failed; that own settings / own blocked services are applied only on their opt-out edges from the client's corresponding fields; that index changes are reached only after the clash checks returned nil inside one hold of the storage mutex, with an update removing the stored client's entries before adding the new ones; that add writes and remove deletes exactly all maps of the index, nobody else mutates them, and every identifier map is covered by a clash check and a finder; that every index access happens under the storage mutex; and that the subnet comparator, evaluated over the finite domain of prefix-length and address relations, orders the longer prefix first (antisymmetric, zero only for the same subnet) while the lookup stops at the first containing prefix — so the most specific subnet wins. "
+      "Consistency over arbitrary operation histories and prefix containment itself are value/history-level and not decided.",
       "DESIGN.md §5 C04")
 
 claim("C09",
@@ -110,7 +110,7 @@ claim("C09",
 
 claim("C20",
       "loop-variant recognition on natural loops (range, counted, budget counter in phi or spilled cell, decremented field) + CFG edge guards for seek result classes (static analysis)",
-      "Decides termination of every loop of the file reader and the multi-file reader by a syntactic ranking argument, and the mapping of seek outcomes: the probe validator yields too-early / not-found / too-late / ok exactly on its index conditions, a probe is used only after validation, the reader is positioned only on an exact timestamp match, and the multi-file seek goes to the older file on too-early, to the start of the newest file only on too-late, fails on not-found and makes the file current on success. "
+      "Decides termination of every loop of the file reader and the multi-file reader by a syntactic ranking argument, and the mapping of seek outcomes: the probe validator yields too-early / not-found / too-late / ok exactly on its index conditions, a probe is used only after validation, the reader is positioned only on an exact timestamp match, and the multi-file seek goes to the older file on too-early, to the start of the newest file only on too-late, fails on not-found and makes the file current on success; and that the buffer windows cover the 16 KiB entry limit: the chunk is re-read whenever fewer bytes than the limit lie before the read position, chunk bound/offset/allocation use one constant of at least two limits, and the probe window reaches one limit back and is allocated one limit beyond. "
       "That reverse reading returns every line exactly once and that the position after a seek is right are arithmetic over runtime offsets and buffer boundaries and are not decided.",
       "DESIGN.md §5 C20")
 
